@@ -512,11 +512,11 @@ func (lb *LoadBalancer) RemoveBackend(name string) {
 	lb.mutex.Lock()
 	defer lb.mutex.Unlock()
 
-	// Find the backend by name
+	// Remove every backend registered under that name (names are not unique:
+	// adding the same name twice creates two backends)
 	for _, backend := range lb.strategy.GetBackends() {
 		if backend.Name == name {
 			lb.strategy.RemoveBackend(backend)
-			break
 		}
 	}
 }
